@@ -16,6 +16,7 @@ import (
 //   rb <fr> <regs> <fc 1|2> <addr> <count>   -> ok <bits as 0/1 string> | err <class>
 //   rr <fr> <regs> <fc 3|4> <addr> <count>   -> ok v,v,.. | err <class>
 //   ws <fr> <regs> <fc 5|6> <addr> <value>   -> ok | <regs after>   or   err <class> | <regs after>
+//   sq <fr> <regs> <rb|rr:fc:addr:count;..>  -> the results of several reads over ONE link, joined by " ; "
 //   fr <fr> <frameHex>                       -> transport Decode of raw bytes: ok id fc dataHex | err <class>
 //   cv <kind> <v,v,..>                       -> conversions: "<regs> | <back>"
 
@@ -82,9 +83,64 @@ func mbErr(err error) string {
 	return "err other:" + m
 }
 
+// c19Read performs one read request on an open link and renders the result like the rb / rr cases
+func c19Read(l *mbLink, kind string, fc int, a, n uint16) string {
+	if kind == "rb" {
+		var bits []bool
+		var err error
+		if fc == 1 {
+			bits, err = l.client.ReadCoils(1, a, n)
+		} else {
+			bits, err = l.client.ReadDiscreteInputs(1, a, n)
+		}
+		if err != nil {
+			return mbErr(err)
+		}
+		var sb strings.Builder
+		for _, b := range bits {
+			if b {
+				sb.WriteByte('1')
+			} else {
+				sb.WriteByte('0')
+			}
+		}
+		if sb.Len() == 0 {
+			return "ok -"
+		}
+		return "ok " + sb.String()
+	}
+	var vs []uint16
+	var err error
+	if fc == 3 {
+		vs, err = l.client.ReadHoldingRegs(1, a, n)
+	} else {
+		vs, err = l.client.ReadInputRegs(1, a, n)
+	}
+	if err != nil {
+		return mbErr(err)
+	}
+	var ss []string
+	for _, v := range vs {
+		ss = append(ss, strconv.Itoa(int(v)))
+	}
+	return "ok " + joinList(ss)
+}
+
 func c19Run(c string) string {
 	f := strings.Fields(c)
 	switch f[0] {
+	case "sq":
+		// sq <fr> <regs> <kind:fc:addr:count;...>: several read requests over ONE link (on TCP the transaction id goes up
+		// with every request and every answer must echo the one just sent)
+		specs := parseRegs(f[2])
+		l := c19Link(f[1], buildRegs(specs))
+		defer func() { go l.srv.Close() }()
+		var res []string
+		for _, rq := range strings.Split(f[3], ";") {
+			q := strings.Split(rq, ":")
+			res = append(res, c19Read(l, q[0], int(atoi64(q[1])), uint16(atoi64(q[2])), uint16(atoi64(q[3]))))
+		}
+		return strings.Join(res, " ; ")
 	case "rb", "rr", "ws":
 		specs := parseRegs(f[2])
 		l := c19Link(f[1], buildRegs(specs))
@@ -250,6 +306,25 @@ func c19Gen(r *rand.Rand, n int, tier string) []string {
 	frs := []string{"rtu", "tcp"}
 	for i := 0; i < n; i++ {
 		fr := pick(r, frs)
+		if i%25 == 24 {
+			// a sequence of reads over one link
+			regs := c18Regs(r)
+			specs := parseRegs(regs)
+			var rq []string
+			for j := 0; j < 2+r.Intn(5); j++ {
+				base := 0
+				if len(specs) > 0 {
+					base = pick(r, specs).addr
+				}
+				if r.Intn(2) == 0 {
+					rq = append(rq, fmt.Sprintf("rb:%d:%d:%d", 1+r.Intn(2), (base*16+r.Intn(16))%65536, pick(r, []int{1, 2, 8, 9, 16, 17})))
+				} else {
+					rq = append(rq, fmt.Sprintf("rr:%d:%d:%d", 3+r.Intn(2), base, pick(r, []int{1, 2, 3, 7})))
+				}
+			}
+			out = append(out, fmt.Sprintf("sq %s %s %s", fr, regs, strings.Join(rq, ";")))
+			continue
+		}
 		switch k := r.Intn(20); {
 		case k < 7:
 			regs := c18Regs(r)
